@@ -1,5 +1,5 @@
 """Evidence for the C12 finding "SplineCV(client=...) ignores scoring": run with PYTHONPATH=/repo python harness/c12_finding_client.py
-(not part of the check: the deprecated client= path is kept out of the default generator)."""
+(historical evidence: repaired in /repo a67f133; the client= path is now exercised by the splinecv-client stream of harness/c12.py)."""
 import warnings, numpy as np, verde as vd
 warnings.simplefilter("ignore")
 class Fut:
